@@ -42,3 +42,95 @@ def classify(db, prop_id, trace, viol):
         if kf["property"] == prop_id and matches(kf, trace, viol):
             return kf
     return None
+
+
+# ---------------------------------------------------------------------------------------------
+# predicates (evaluated on the minimised trace + its violation)
+# ---------------------------------------------------------------------------------------------
+def _ops(trace):
+    return trace.get("ops", [])
+
+
+def _step_argv(trace, viol):
+    st = viol.get("step")
+    ops = _ops(trace)
+    if isinstance(st, int) and 0 <= st < len(ops):
+        return ops[st].get("argv") or []
+    return []
+
+
+def _index_of(trace, pred, start=0, end=None):
+    ops = _ops(trace)
+    for i in range(start, len(ops) if end is None else min(end, len(ops))):
+        if pred(ops[i]):
+            return i
+    return None
+
+
+def _is_git(op, *words):
+    a = op.get("argv") or []
+    return op.get("op") == "git" and all(w in a for w in words)
+
+
+LEDGER_CLASSES = ("ai_line_reported_human", "human_line_reported_ai", "wrong_session")
+
+
+@predicate("stash_pop_shift")
+def stash_pop_shift(trace, viol):
+    """stash push ; a commit that changes the stashed file ; stash pop/apply ; commit -> wrong lines"""
+    if viol.get("class") not in LEDGER_CLASSES:
+        return False
+    push = _index_of(trace, lambda o: _is_git(o, "stash", "push"))
+    if push is None:
+        return False
+    pop = _index_of(trace, lambda o: _is_git(o, "stash") and ("pop" in o["argv"] or "apply" in o["argv"]), push)
+    if pop is None:
+        return False
+    between_commit = _index_of(trace, lambda o: _is_git(o, "commit"), push, pop)
+    st = viol.get("step")
+    return between_commit is not None and isinstance(st, int) and st > pop
+
+
+@predicate("rebase_conflict_multi_commit")
+def rebase_conflict_multi_commit(trace, viol):
+    if viol.get("class") not in LEDGER_CLASSES:
+        return False
+    reb = _index_of(trace, lambda o: _is_git(o, "rebase") and "--continue" not in o["argv"] and "--abort" not in o["argv"])
+    if reb is None:
+        return False
+    res = _index_of(trace, lambda o: o.get("op") == "resolve", reb)
+    st = viol.get("step")
+    return res is not None and isinstance(st, int) and st > res and "rebase" in _step_argv(trace, viol)
+
+
+@predicate("rebase_edit_amend")
+def rebase_edit_amend(trace, viol):
+    if viol.get("class") not in LEDGER_CLASSES:
+        return False
+    reb = _index_of(trace, lambda o: _is_git(o, "rebase", "-i") and "edit" in (o.get("plan") or ""))
+    if reb is None:
+        return False
+    am = _index_of(trace, lambda o: _is_git(o, "commit", "--amend"), reb)
+    cont = _index_of(trace, lambda o: _is_git(o, "rebase", "--continue"), reb)
+    st = viol.get("step")
+    return am is not None and cont is not None and am < cont and isinstance(st, int) and st >= cont
+
+
+@predicate("amend_shift")
+def amend_shift(trace, viol):
+    """commit ; human edit of the committed file ; commit --amend"""
+    if viol.get("class") not in LEDGER_CLASSES:
+        return False
+    av = _step_argv(trace, viol)
+    if not ("commit" in av and "--amend" in av):
+        return False
+    st = viol["step"]
+    ops = _ops(trace)
+    prev_commit = None
+    for i in range(st - 1, -1, -1):
+        if _is_git(ops[i], "commit"):
+            prev_commit = i
+            break
+    if prev_commit is None:
+        return False
+    return any(o.get("op") == "edit" and o.get("who") == "human" for o in ops[prev_commit:st])
